@@ -411,7 +411,7 @@ def gen_value(r, t, in_range=True, maxlen=40, depth=0):
         return r.random() < 0.5
     if isinstance(t, pydsdl.IntegerType):
         lo, hi = int(t.inclusive_value_range.min), int(t.inclusive_value_range.max)
-        if in_range:
+        if in_range:          # True or "py" (a Python scalar)
             return r.choice([lo, hi, 0, min(1, hi), max(-1, lo), r.randint(lo, hi), r.randint(lo, hi), hi - 1 if hi > lo else hi, lo + 1 if hi > lo else lo])
         sb = storage_bits(t)
         slo, shi = (-(1 << (sb - 1)), (1 << (sb - 1)) - 1) if isinstance(t, pydsdl.SignedIntegerType) else (0, (1 << sb) - 1)
@@ -437,10 +437,14 @@ def gen_value(r, t, in_range=True, maxlen=40, depth=0):
             n = t.capacity
         if isinstance(t.element_type, pydsdl.UTF8Type):
             return [r.choice(b"abc xyz09\x00\xff\xc3") for _ in range(n)]
+        em = in_range
+        if in_range == "py":
+            # what a generated Python object can hold: scalars are range-checked, integer array elements only by their NumPy dtype
+            em = False if isinstance(t.element_type, pydsdl.IntegerType) else "py"
         if n > 64 and isinstance(t.element_type, pydsdl.PrimitiveType):
-            base = [gen_value(r, t.element_type, in_range, maxlen, depth + 1) for _ in range(8)]
+            base = [gen_value(r, t.element_type, em, maxlen, depth + 1) for _ in range(8)]
             return [base[i % 8] for i in range(n)]
-        return [gen_value(r, t.element_type, in_range, maxlen, depth + 1) for _ in range(n)]
+        return [gen_value(r, t.element_type, em, maxlen, depth + 1) for _ in range(n)]
     if isinstance(t, pydsdl.CompositeType):
         it = inner(t)
         if isinstance(it, pydsdl.UnionType):
